@@ -13,6 +13,7 @@
 -/
 import WB.Lemmas.C27Sums
 import WB.Lemmas.C27Sea
+import WB.Lemmas.C04Expr
 import WB.Props.C15
 import Mathlib.Data.Complex.Basic
 
@@ -361,6 +362,36 @@ theorem sea_groups_without_clamp_overlap :
     let E := WB.C15.ofList [0, 1/20000, 3/2]
     seaGroups E (1/10000) 3 false (1/50000) 30 = [(0, 2), (2, 3)] ∧
     seaGroupsNoClamp E (1/10000) 3 false (1/50000) 30 = [(0, 1), (0, 2), (2, 3)] := by
+  decide +kernel
+
+
+/-! ## the full Berry curvature (with external terms): gauge invariant over a partition, but no sum rule -/
+
+open WB.C04 in
+/-- **`omega_total_gauge_invariant`.**  The full Berry curvature `Omega` (internal AND external terms, as the class
+    computes it: `WB.C04.omegaE`) traced over every block of a grouping of the bands and summed is unchanged by a gauge
+    change that rotates the states inside each block (and, independently, the states outside it) among states of
+    exactly equal energy.  Each block comes with its own inner/outer data `env`, gauge `g` and transformed atoms. -/
+theorem omega_total_gauge_invariant (I half : K) (dei : K → K → K) (int ext : Bool) (oo : String) (c : ℕ)
+    (blocks : List ((env : BEnv K) × Gauge env × (String → ℕ → List ℕ → Side → Side → ℕ → ℕ → K)))
+    (hatom : ∀ b ∈ blocks, ∀ name der cs r c', toMat (b.1.dim r) (b.1.dim c') (b.2.2 name der cs r c')
+      = cj (b.2.1.U r) (b.2.1.U c') (toMat (b.1.dim r) (b.1.dim c') (b.1.blk name der cs r c'))) :
+    (blocks.map fun b => traceM (b.1.dim .inn)
+        ((omegaE I half dei int ext oo [c] .inn).eval star { b.1 with blk := b.2.2 })).sum
+      = (blocks.map fun b => traceM (b.1.dim .inn) ((omegaE I half dei int ext oo [c] .inn).eval star b.1)).sum := by
+  congr 1
+  apply List.map_congr_left
+  intro b hb
+  exact trace_sound b.1 b.2.1 b.2.2 (hatom b hb) _
+
+open WB.C04 in
+/-- the external terms obey NO sum rule: one band, nothing outside, `rotAA = 1` — the external Berry curvature
+    summed over all bands is `½·1 + conj(½·1) = 1 ≠ 0` (it is the trace of `curl A^W`, a property of the Wannier
+    functions, not of the Hamiltonian) -/
+theorem external_terms_no_sum_rule :
+    let env : BEnv GRat := ⟨fun s => match s with | .inn => 1 | .out => 0,
+      fun name _ _ _ _ _ _ => if name = "rotAA" then ⟨1, 0⟩ else ⟨0, 0⟩, fun _ _ => ⟨0, 0⟩⟩
+    traceM 1 ((omegaE GRat.I ⟨1/2, 0⟩ (deiG (1/10)) false true "rotAA" [2] .inn).eval GRat.conj env) = ⟨1, 0⟩ := by
   decide +kernel
 
 /-! ## T4: Fermi level above all bands -/
